@@ -185,6 +185,10 @@ pub enum Op {
     /// `cell.with_mut(|_| panic!("injected failure"))` / the same inside an atomic's `with_mut`
     PanicInCellMut { c: u8 },
     PanicInAtomMut { a: u8 },
+    /// misuse loom reports by panicking: an access to the cell nested inside another access of the
+    /// same thread. k = 0: `with` inside `with_mut` ("currently writing"), 1: `with_mut` inside
+    /// `with` ("currently reading"), 2: `with_mut` inside `with_mut`
+    CellNested { c: u8, k: u8 },
     StopExploring,
     Explore,
     SkipBranch,
@@ -261,7 +265,7 @@ impl Program {
     }
     pub fn n_cells(&self) -> usize {
         self.max_index(|op| match op {
-            Op::CellRead { c } | Op::CellWrite { c } | Op::PanicInCellMut { c } => Some(*c),
+            Op::CellRead { c } | Op::CellWrite { c } | Op::PanicInCellMut { c } | Op::CellNested { c, .. } => Some(*c),
             _ => None,
         })
     }
@@ -445,6 +449,7 @@ impl fmt::Display for Op {
             PanicIf { v } => write!(f, "panic_if({})", v),
             DropGuardStore { a } => write!(f, "x{}.store_on_drop", a),
             PanicInCellMut { c } => write!(f, "c{}.with_mut(panic)", c),
+            CellNested { c, k } => write!(f, "c{}.nested({})", c, k),
             PanicInAtomMut { a } => write!(f, "x{}.with_mut(panic)", a),
             StopExploring => write!(f, "stop_exploring"),
             Explore => write!(f, "explore"),
